@@ -2,6 +2,7 @@ package c09
 
 import (
 	"fmt"
+	"regexp"
 	"strconv"
 	"strings"
 	"testing"
@@ -19,6 +20,13 @@ func script(w *W) string {
 	src := script0(w)
 	if w.Payload == "obj" { // classes are registered at parse time: the declaration can follow its uses
 		src += "class Msg { public $id; public function __construct($id) { $this->id = $id; } }\n"
+	}
+	if w.Payload == "keyed" {
+		// keyed records (array literals with string keys, copies handed out by ArrayObject): the consumer
+		// reports keys AND values
+		src = strings.ReplaceAll(src, "$v = $ch->receive();\n    __e(", "$v = $ch->receive();\n    if ($v !== null) { $v = Show::of($v); }\n    __e(")
+		src = strings.ReplaceAll(src, "$v = $nc->receive();\n    __e(", "$v = $nc->receive();\n    if ($v !== null) { $v = Show::of($v); }\n    __e(")
+		src += "class Show { public static function of($a) { $s = \"\"; foreach ($a as $k => $x) { $s .= $k . \"=\" . $x . \";\"; } return $s; } }\n"
 	}
 	return src
 }
@@ -85,6 +93,14 @@ func script0(w *W) string {
 			switch w.Payload {
 			case "int": // the value is the number itself; it is recorded as "p<i>-<k>" through __pv
 				fmt.Fprintf(&b, "  __b(%d, \"send\", \"p%d-%d\");\n  $r = $ch->send(%d);\n  __e(%d, $r);\n", id, p, k, 1000*(p+1)+k, id)
+				continue
+			case "keyed":
+				if (p+k)%2 == 0 {
+					fmt.Fprintf(&b, "  $a = [\"id\" => \"p%d-%d\", \"k\" => %d];\n", p, k, k)
+				} else {
+					fmt.Fprintf(&b, "  $ao = new ArrayObject([\"id\" => \"p%d-%d\", \"k\" => %d]);\n  $a = $ao->getArrayCopy();\n", p, k, k)
+				}
+				fmt.Fprintf(&b, "  __b(%d, \"send\", \"p%d-%d\");\n  $r = $ch->send($a);\n  __e(%d, $r);\n", id, p, k, id)
 				continue
 			case "numstr": // numeric strings with leading zeros must arrive as the strings they are
 				fmt.Fprintf(&b, "  __b(%d, \"send\", \"p%d-%d\");\n  $r = $ch->send(\"000%d\");\n  __e(%d, $r);\n", id, p, k, 1000*(p+1)+k, id)
@@ -195,6 +211,12 @@ func execScript(t *testing.T, w *W, s hx.Sched) *hx.Outcome {
 					}
 				}
 			case *data.StringValue:
+				if w.Payload == "keyed" {
+					// "id=p<p>-<k>;k=<k>;" stands for the record p<p>-<k>; anything else is reported as it is
+					if m := keyedRe.FindStringSubmatch(v.Value); m != nil && m[2] == m[3] {
+						ret = "p" + m[1] + "-" + m[2]
+					}
+				}
 				if w.Payload == "numstr" && len(v.Value) >= 7 && strings.HasPrefix(v.Value, "000") {
 					if n, err := strconv.Atoi(v.Value); err == nil {
 						ret = fmt.Sprintf("p%d-%d", n/1000-1, n%1000)
@@ -256,6 +278,8 @@ func execScript(t *testing.T, w *W, s hx.Sched) *hx.Outcome {
 	o.Hash = verifsim.Mix(o.Hash, hx.HashStrings(env.Throws...))
 	return o
 }
+
+var keyedRe = regexp.MustCompile(`^id=p(\d+)-(\d+);k=(\d+);$`)
 
 func atoi(s string) int {
 	n := 0
